@@ -51,11 +51,28 @@ const c16Cid = "c16dev"
 // generous so that a heavily loaded machine cannot turn slowness into a finding
 const c16Patience = 40 * time.Second
 
+// Hang budget (extension mqtt): a wait that runs into c16Patience is a genuine hang (or a changed broker that no
+// longer produces the awaited event). It is reported through the case it happened in; from then on this
+// process waits at most c16ShortPatience, and after c16MaxHangs such waits the remaining cases are not executed
+// (`{"aborted":…}`), so that a run against a broken tree ends in bounded time instead of cases × waits × 40 s.
+const c16ShortPatience = 3 * time.Second
+const c16MaxHangs = 3
+
+var c16Hangs int32
+
+func c16PatienceNow() time.Duration {
+	if atomic.LoadInt32(&c16Hangs) > 0 {
+		return c16ShortPatience
+	}
+	return c16Patience
+}
+
 type c16Action struct {
 	Op    string      `json:"op"`
 	K     int         `json:"k"`
 	Clean bool        `json:"clean,omitempty"`
 	F     int         `json:"f,omitempty"`
+	Q     int         `json:"q,omitempty"`    // sub: requested QoS (0 / 1)
 	Disc  bool        `json:"disc,omitempty"` // drop by DISCONNECT packet instead of FIN
 	Par   []c16Action `json:"par,omitempty"`
 }
@@ -81,6 +98,10 @@ type c16Snap struct {
 	DBClean    bool   `json:"dbClean"`
 	TM         []int  `json:"tm"`    // topics under which TopicManager routes to the id
 	Watch      int    `json:"watch"` // queued delete events
+	// QoS per listed topic (same order as sessTopics / dbTopics / tm)
+	SessQos []int `json:"sessQos"`
+	DBQos   []int `json:"dbQos"`
+	TMQos   []int `json:"tmQos"`
 }
 
 type c16Obs struct {
@@ -212,12 +233,13 @@ type c16Run struct {
 }
 
 func c16Wait(cond func() bool) bool {
-	deadline := time.Now().Add(c16Patience)
+	deadline := time.Now().Add(c16PatienceNow())
 	for i := 0; ; i++ {
 		if cond() {
 			return true
 		}
 		if time.Now().After(deadline) {
+			atomic.AddInt32(&c16Hangs, 1)
 			return false
 		}
 		if i < 50 {
@@ -234,13 +256,41 @@ func (r *c16Run) addPut() {
 	r.mu.Unlock()
 }
 
+// settlePuts waits until every Session.store() issued so far has reached the storage. Model-free (extension
+// mqtt): `store()` hands the encoded session to `go func(){ s.storeCh <- ss }()` and SessionManager.doStore puts
+// it; the puts are settled when no such sender goroutine exists any more and doStore is parked in its select.
+// (The earlier version waited for a put COUNT derived from the actions: a broker that stores less often than
+// expected then made every wait run into the patience bound instead of showing up in the snapshot.)
 func (r *c16Run) settlePuts() bool {
-	return c16Wait(func() bool {
-		r.mu.Lock()
-		w := r.wantPuts
-		r.mu.Unlock()
-		return r.st.putCount() >= w
-	})
+	return c16Wait(c16StoreIdle)
+}
+
+func c16StoreIdle() bool {
+	buf := make([]byte, 1<<16)
+	for {
+		n := runtime.Stack(buf, true)
+		if n < len(buf) {
+			buf = buf[:n]
+			break
+		}
+		buf = make([]byte, 2*len(buf))
+	}
+	for _, g := range strings.Split(string(buf), "\n\n") {
+		// a sender goroutine of Session.store, running, blocked on storeCh, or not yet started
+		if strings.Contains(g, "mqttproxy.(*Session).store.func1") || strings.Contains(g, "created by github.com/megaease/easegress/pkg/object/mqttproxy.(*Session).store") {
+			return false
+		}
+		if strings.Contains(g, "\ngithub.com/megaease/easegress/pkg/object/mqttproxy.(*SessionManager).doStore(") {
+			hdr := g
+			if i := strings.Index(g, "\n"); i >= 0 {
+				hdr = g[:i]
+			}
+			if !strings.Contains(hdr, "[select") {
+				return false
+			}
+		}
+	}
+	return true
 }
 
 func (r *c16Run) conn(k int) *c16Conn {
@@ -260,11 +310,14 @@ func (r *c16Run) isConn(c *Client, k int) bool {
 }
 
 func c16ReadUntil(sock net.Conn, want func(packets.ControlPacket) bool, onPublish func(*packets.PublishPacket)) string {
-	sock.SetReadDeadline(time.Now().Add(c16Patience))
+	sock.SetReadDeadline(time.Now().Add(c16PatienceNow()))
 	defer sock.SetReadDeadline(time.Time{})
 	for {
 		p, err := packets.ReadPacket(sock)
 		if err != nil {
+			if c16ErrClass(err) == "timeout" {
+				atomic.AddInt32(&c16Hangs, 1)
+			}
 			return "read:" + c16ErrClass(err)
 		}
 		if pub, ok := p.(*packets.PublishPacket); ok && onPublish != nil {
@@ -373,7 +426,11 @@ func (r *c16Run) do(a c16Action) (bool, int, string) {
 			sp := packets.NewControlPacket(packets.Subscribe).(*packets.SubscribePacket)
 			sp.MessageID = 7
 			sp.Topics = []string{c16Topic(a.F)}
-			sp.Qoss = []byte{0}
+			q := a.Q
+			if q < 0 || q > 1 {
+				q = 0
+			}
+			sp.Qoss = []byte{byte(q)}
 			sp.Qos = 1
 			if err := sp.Write(hc.sock); err != nil {
 				return false, -1, "write"
@@ -514,6 +571,15 @@ func c16SortedTopics(m map[string]int) []int {
 	return out
 }
 
+// c16QosOf lists the QoS values of the topics in the order of c16SortedTopics.
+func c16QosOf(m map[string]int, topics []int) []int {
+	out := []int{}
+	for _, i := range topics {
+		out = append(out, m[c16Topic(i)])
+	}
+	return out
+}
+
 // c16ReadLoopsParked reports whether every broker-side read loop is blocked in
 // its socket read. A read loop that is still on its way back to ReadPacket after
 // the last packet could otherwise see a c.done closed by the *next* action and
@@ -560,9 +626,10 @@ func c16Handlers() int {
 }
 
 func (r *c16Run) snap() c16Snap {
-	r.settlePuts()
-	c16Wait(c16ReadLoopsParked)
-	s := c16Snap{Code: -1, Reg: -1, Disc: []int{}, Seen: []int{}, SessTopics: []int{}, DBTopics: []int{}, TM: []int{}}
+	settled := r.settlePuts()
+	parked := c16Wait(c16ReadLoopsParked)
+	s := c16Snap{Code: -1, Reg: -1, Disc: []int{}, Seen: []int{}, SessTopics: []int{}, DBTopics: []int{}, TM: []int{},
+		SessQos: []int{}, DBQos: []int{}, TMQos: []int{}}
 	r.b.Lock()
 	cur := r.b.clients[c16Cid]
 	r.b.Unlock()
@@ -587,6 +654,7 @@ func (r *c16Run) snap() c16Snap {
 		s.SessMap = true
 		sess.Lock()
 		s.SessTopics = c16SortedTopics(sess.info.Topics)
+		s.SessQos = c16QosOf(sess.info.Topics, s.SessTopics)
 		s.SessClean = sess.info.CleanFlag
 		sess.Unlock()
 		select {
@@ -600,16 +668,23 @@ func (r *c16Run) snap() c16Snap {
 		if yaml.Unmarshal([]byte(*str), info) == nil {
 			s.DB = true
 			s.DBTopics = c16SortedTopics(info.Topics)
+			s.DBQos = c16QosOf(info.Topics, s.DBTopics)
 			s.DBClean = info.CleanFlag
 		}
 	}
 	for i := 0; i < c16NTopics; i++ {
 		subs, _ := r.b.topicMgr.findSubscribers(c16Topic(i))
-		if _, ok := subs[c16Cid]; ok {
+		if q, ok := subs[c16Cid]; ok {
 			s.TM = append(s.TM, i)
+			s.TMQos = append(s.TMQos, int(q))
 		}
 	}
 	s.Watch = r.st.pendingCount()
+	if !settled {
+		s.Err = "puts-not-settled"
+	} else if !parked {
+		s.Err = "read-loops-not-parked"
+	}
 	return s
 }
 
@@ -623,6 +698,9 @@ func c16Exec(raw json.RawMessage) interface{} {
 	var in c16Input
 	if err := json.Unmarshal(raw, &in); err != nil {
 		return map[string]string{"error": "bad-input"}
+	}
+	if n := atomic.LoadInt32(&c16Hangs); n >= c16MaxHangs {
+		return map[string]interface{}{"aborted": fmt.Sprintf("after %d waits ran into the patience bound (reported by the cases they happened in)", n)}
 	}
 	spec := &Spec{Name: "c16", EGName: "c16", Port: 0}
 	st := c16NewStore()
@@ -651,7 +729,10 @@ func c16Exec(raw json.RawMessage) interface{} {
 	for _, a := range in.Actions {
 		skipped, code, e := r.do(a)
 		s := r.snap()
-		s.Skipped, s.Code, s.Err = skipped, code, e
+		s.Skipped, s.Code = skipped, code
+		if e != "" {
+			s.Err = e
+		}
 		if cur := r.registered(); cur != nil && s.Reg >= 0 {
 			seen.byK[s.Reg] = cur
 			r.mu.Lock()
@@ -725,6 +806,7 @@ func c16Gen(r *verifh.Rand, i int) interface{} {
 		next++
 		return a
 	}
+	lastF := -1
 	cleanBias := r.Intn(4) // 0: mostly persistent, 1: mostly clean, else mixed
 	pickClean := func() bool {
 		switch cleanBias {
@@ -752,7 +834,12 @@ func c16Gen(r *verifh.Rand, i int) interface{} {
 		switch r.Intn(12) {
 		case 0, 1, 2:
 			if cur >= 0 {
-				in.Actions = append(in.Actions, c16Action{Op: "sub", K: cur, F: r.Intn(c16NTopics)})
+				f := r.Intn(c16NTopics)
+				if lastF >= 0 && r.Bool(1, 3) {
+					f = lastF // re-subscribe a filter that was subscribed before, often at another QoS
+				}
+				lastF = f
+				in.Actions = append(in.Actions, c16Action{Op: "sub", K: cur, F: f, Q: r.Intn(2)})
 			}
 		case 3:
 			if cur >= 0 {
@@ -774,7 +861,7 @@ func c16Gen(r *verifh.Rand, i int) interface{} {
 			}
 			in.Actions = append(in.Actions, c16Action{Op: "watch"})
 		case 10: // stale packets of a superseded connection, unknown connections (must be skipped)
-			in.Actions = append(in.Actions, c16Action{Op: r.Pick("sub", "unsub", "drop"), K: r.Intn(next + 1), F: r.Intn(c16NTopics)})
+			in.Actions = append(in.Actions, c16Action{Op: r.Pick("sub", "unsub", "drop"), K: r.Intn(next + 1), F: r.Intn(c16NTopics), Q: r.Intn(2)})
 		case 11: // real race: teardown of an old connection against a new connection's CONNECT
 			if len(live) > 0 && r.Bool(1, 2) {
 				d := dropOf(live[0])
